@@ -97,7 +97,16 @@ impl Config {
         rec: &mut Rec,
     ) -> CheckResult {
         let g = G::new(case.gc.g.n, &case.gc.g.att_usize());
-        let fams = Fams::new(&g);
+        let fams = match Fams::auto(&g) {
+            Some(f) => f,
+            None => {
+                rec.class("medium-size-graph-skipped-too-many-extensions");
+                return Ok(());
+            }
+        };
+        if g.n > 13 {
+            rec.class("script-on-a-medium-size-graph-14-24-arguments");
+        }
         let lm = LabelMap::new(af, labels);
         let sem = sem_of(case.kind);
         let exts = fams.exts(sem);
@@ -222,7 +231,13 @@ impl Prop for Config {
             .prop_map(|(meta, kissat, picks)| ConfigAny::Medium { meta, kissat, picks });
         let matrix = (gen::graph(8), 0u8..3, 0u8..7, any::<u16>(), any::<bool>())
             .prop_map(|(g, q, sem, arg, cert)| ConfigAny::CliMatrix { g, q, sem, arg, cert });
-        prop_oneof![250 => self.small_strategy(tier).prop_map(ConfigAny::Small), 1 => medium, 2 => matrix].boxed()
+        // query scripts on ONE solver object over an irregular graph of 14-24 arguments (embedded backend,
+        // plain or behind the model chooser)
+        let med_script = (crate::checks::statics::medium_strategy(), 0usize..KINDS.len(), any::<u8>(), prop_oneof![Just(0u8), Just(3u8)], vec((0u8..3, any::<u16>(), any::<bool>(), prop_oneof![3 => Just(false), 1 => Just(true)]), 3..=10))
+            .prop_map(|(gc, k, enc_pick, backend, script)| {
+                ConfigAny::Small(ConfigCase { gc, kind: KINDS[k], enc_pick, backend, script: script.into_iter().map(|(q, arg, cert, twice)| Step { q, arg, cert, twice }).collect() })
+            });
+        prop_oneof![250 => self.small_strategy(tier).prop_map(ConfigAny::Small), 1 => medium, 2 => matrix, 4 => med_script].boxed()
     }
     fn max_shrink_iters(&self) -> u32 {
         3_000
